@@ -904,6 +904,13 @@ func (p *Parser) parseJoin(stmt *SelectStatement) error {
 			if err != nil {
 				return err
 			}
+			// An equality is symmetric: "ON m.id = deviceId" means the same as
+			// "ON deviceId = m.id". The side qualified with the table alias is the
+			// table side; only when that does not decide it, the order as written
+			// (stream = table) is used.
+			if hasAliasPrefix(left, jc.Alias) && !hasAliasPrefix(right, jc.Alias) {
+				left, right = right, left
+			}
 			jc.OnPairs = append(jc.OnPairs, types.JoinOnPair{
 				StreamField: stripAliasPrefix(left, stmt.SourceAlias, jc.Alias),
 				TableField:  stripAliasPrefix(right, stmt.SourceAlias, jc.Alias),
@@ -951,6 +958,11 @@ func (p *Parser) readJoinedFieldName() (string, error) {
 		name += "." + pv
 	}
 	return name, nil
+}
+
+// hasAliasPrefix reports whether field is qualified with alias ("alias.rest").
+func hasAliasPrefix(field, alias string) bool {
+	return alias != "" && strings.HasPrefix(field, alias+".")
 }
 
 // stripAliasPrefix removes a leading "alias." qualifier so the stored field path
